@@ -16,6 +16,7 @@ macro_rules! dispatch {
             "C10" => $f::<props::c10::P>($($a),*),
             "C11" => $f::<props::c11::P>($($a),*),
             "C12" => $f::<props::c12::P>($($a),*),
+            "C13" => $f::<props::c13::P>($($a),*),
             "C14" => $f::<props::c14::P>($($a),*),
             other => {
                 eprintln!("unknown property {other}");
